@@ -3,7 +3,7 @@ import modelx as mx
 from modelx.core.errors import FormulaError
 from . import machine, gen, grammar, probe, refmodel as rm, history
 from .props.base import Violation
-from .world import norm, objpath, library_self_check
+from .world import norm, objpath, library_self_check, left_executing
 
 KINDS = ["ValueError", "ZeroDivisionError", "KeyError", "InjectedError", "MemoryError", "RecursionError",
          "KeyboardInterrupt"]
@@ -229,7 +229,7 @@ class Scenario:
             if isinstance(library_self_check(getattr(m, "_impl", None)), AssertionError):
                 raise Violation("%s/sanity-check-failed/%s" % (self.pid, kind), desc)
             sysm = mx.core.mxsys
-            if sysm.callstack or sysm.refstack or sysm.executor.is_executing:
+            if left_executing():
                 raise Violation("%s/left-marked-executing/%s" % (self.pid, kind), desc)
         if self.check_tb and want[0] == "exc":
             # after a later successful top-level call both are empty
